@@ -26,6 +26,7 @@ def closure_sel(trait_closure, wb, post, ctor, fut=False):
         Sel('struct Closure', inside=wb),
         Sel('impl BlockSizeUser for Closure', inside=wb),
         Sel('impl BlockCipherEncClosure for Closure', inside=wb, members='''
+    open spec fn pre_c(&self) -> bool { true }
     #[verifier::prophetic]
     open spec fn post_c(&self, enc: spec_fn(Blk) -> Blk) -> bool {
         self.f.%s(%s(enc), %s, %s)
